@@ -384,8 +384,12 @@ def r5_subclass_fallback(ctx):
     for a in (True, False):
         for b in (True, False):
             table = {("T1", "T2"): a, ("T2", "T1"): b}
-            it = Interp(A.order_enum(ctx.repo).name, stubs={"issubclass": lambda x, y, t=table: t[(x, y)]})
-            got[(a, b)] = it.run(fake, {p1: "T1", p2: "T2"})
+            stubs = {"issubclass": lambda x, y, t=table: t[(x, y)], "hasattr": lambda *x: False, "get_origin": lambda *x: None, "get_args": lambda *x: ()}
+            try:
+                # the whole function on two distinct plain classes (no hooks, no origin)
+                got[(a, b)] = Interp(A.order_enum(ctx.repo).name, stubs=stubs).run(f.node, {p1: "T1", p2: "T2"})
+            except AnalysisError:
+                got[(a, b)] = Interp(A.order_enum(ctx.repo).name, stubs=stubs).run(fake, {p1: "T1", p2: "T2"})
     bad = {k: v for k, v in got.items() if v != want[k]}
     ctx.ob(
         f"{f.key}:issubclass-fallback",
